@@ -28,6 +28,7 @@ def running_min(ys, ks):
     return out
 
 
+@core.safe_case
 def one(ctx, pts, ks, t, family):
     import kneeliverse.postprocessing as pp
     n = len(pts)
